@@ -754,6 +754,28 @@ theorem nodup_map_getElem?_inj {α β} (f : α → β) : ∀ (l : List α), (l.m
         simp only [List.getElem?_cons_succ] at hi hj
         rw [nodup_map_getElem?_inj f xs hn.2 i j a b hi hj hab]
 
+theorem find?_map_reissue (p : StoredBatch → Bool) (g : StoredBatch → StoredBatch)
+    (hg : ∀ x, p x = true → p (g x) = true) :
+    ∀ (l : List StoredBatch) (x : StoredBatch), l.find? p = some x →
+      (l.map fun y => if p y then g y else y).find? p = some (g x) := by
+  intro l
+  induction l with
+  | nil => intro x h; simp at h
+  | cons a t ih =>
+    intro x h
+    cases hpa : p a with
+    | true =>
+      have : a = x := by simpa [List.find?, hpa] using h
+      subst this
+      simp [hpa, hg a hpa]
+    | false =>
+      have ht : t.find? p = some x := by simpa [List.find?, hpa] using h
+      simp [hpa, ih x ht]
+
+theorem batchKeyIs_reissued (tok nonce est d : Nat) (x : StoredBatch) (h : batchKeyIs tok nonce x = true) :
+    batchKeyIs tok nonce (x.reissued est d) = true := by
+  simpa [batchKeyIs, StoredBatch.reissued] using h
+
 end Lemmas
 
 /-! ## Property theorems (C05) -/
@@ -2553,6 +2575,227 @@ theorem id_counter_wrap_needed :
     (idStep { counter := U64 - 1 } (.put 1 0)).2 = .zeroId ∧
     (idStep (idStep { counter := U64 - 1 } (.put 1 0)).1 (.put 1 0)).2 = .ok 1 := by decide
 
+/-! ### which bridge deployment id the keeper binds (`depStep`)
+
+The clause: "… and on the bridge deployment id wherever the contract's scheme includes it … so
+collected signatures can never authorise a different … deployment".  The theorems above are about
+`GetCheckpoint(turnstoneID)` with the id as a free argument; these are about the keeper that
+supplies it when `BytesToSign` of a bridge batch are issued (`build`) and re-issued (`elect`). -/
+
+/-- **build_binds_active_deployment.**  In EVERY state (hence after every history): when
+`BuildOutgoingTXBatch` issues `BytesToSign` for a batch on chain `c`, the chain has a chain info and
+the bytes are `GetCheckpoint` of the stored batch under THAT chain info's `SmartContractUniqueID` —
+the state of the skyway record (`compassRec`) and of every other chain is irrelevant. -/
+theorem build_binds_active_deployment (H : Hash) (s : DepSt) (c : Nat) (b : GoBatch) (d : Nat)
+    (h : (depStep H s (.build c b)).2 = .bytes d) :
+    ∃ ci, s.chains c = some ci ∧
+      goBatchCheckpoint H ci.uniqueId { b with estimate := 0 } = some d ∧
+      findBatch (depStep H s (.build c b)).1 (hexToAddress b.token) b.nonce =
+        some { chain := c, b := { b with estimate := 0 }, bytes := d } := by
+  unfold depStep at h ⊢
+  cases hc : s.chains c with
+  | none => simp [hc] at h
+  | some ci =>
+    simp only [hc] at h ⊢
+    cases hf : (findBatch s (hexToAddress b.token) b.nonce).isSome with
+    | true => simp [hf] at h
+    | false =>
+      simp only [hf, Bool.false_eq_true, ↓reduceIte] at h ⊢
+      cases hd : goBatchCheckpoint H ci.uniqueId { b with estimate := 0 } with
+      | none => simp [hd] at h
+      | some d' =>
+        simp only [hd, DepOut.bytes.injEq] at h ⊢
+        subst h
+        exact ⟨ci, rfl, hd, by simp [findBatch, List.find?, batchKeyIs]⟩
+
+/-- **reissue_binds_active_deployment.**  In EVERY state: when `UpdateBatchGasEstimate` succeeds, the
+batch was stored without an estimate, its chain has a chain info, and the RE-ISSUED `BytesToSign`
+are `GetCheckpoint` of the stored batch with the elected estimate under the `SmartContractUniqueID`
+of the chain info AS IT IS NOW (a compass upgrade between build and election is picked up; a late
+activation of an older compass, which only moves the skyway record, is not); the stored batch
+carries exactly these bytes afterwards. -/
+theorem reissue_binds_active_deployment (H : Hash) (s : DepSt) (tok : Bytes) (nonce est d : Nat)
+    (h : (depStep H s (.elect tok nonce est)).2 = .bytes d) :
+    ∃ sb ci, findBatch s (hexToAddress tok) nonce = some sb ∧ sb.b.estimate = 0 ∧
+      s.chains sb.chain = some ci ∧
+      goBatchCheckpoint H ci.uniqueId { sb.b with estimate := est } = some d ∧
+      findBatch (depStep H s (.elect tok nonce est)).1 (hexToAddress tok) nonce = some (sb.reissued est d) := by
+  unfold depStep at h ⊢
+  cases hf : findBatch s (hexToAddress tok) nonce with
+  | none => simp [hf] at h
+  | some sb =>
+    simp only [hf] at h ⊢
+    by_cases he : sb.b.estimate > 0
+    · simp [he] at h
+    · simp only [he, ↓reduceIte] at h ⊢
+      cases hc : s.chains sb.chain with
+      | none => simp [hc] at h
+      | some ci =>
+        simp only [hc] at h ⊢
+        cases hd : goBatchCheckpoint H ci.uniqueId { sb.b with estimate := est } with
+        | none => simp [hd] at h
+        | some d' =>
+          simp only [hd, DepOut.bytes.injEq] at h ⊢
+          subst h
+          refine ⟨sb, ci, rfl, by omega, hc, hd, ?_⟩
+          exact find?_map_reissue (batchKeyIs (hexToAddress tok) nonce) (fun x => x.reissued est d')
+            (fun x hx => batchKeyIs_reissued _ _ _ _ x hx) s.batches sb hf
+
+/-- two states that agree on everything signing reads: the chain infos and the stored batches (the
+skyway records are free) -/
+def DepSt.sameSigning (s t : DepSt) : Prop := s.chains = t.chains ∧ s.batches = t.batches
+
+/-- **signing_independent_of_compass_record (step).**  No op other than the direct query of the
+record has an output that depends on the skyway record, and no op lets the record flow into the
+chain infos or the stored batches. -/
+theorem depStep_sameSigning (H : Hash) (s t : DepSt) (op : DepOp) (h : s.sameSigning t) :
+    (depStep H s op).1.sameSigning (depStep H t op).1 ∧
+    (op.readsRecord = false → (depStep H s op).2 = (depStep H t op).2) := by
+  obtain ⟨sc, sr, sb⟩ := s
+  obtain ⟨tc, tr, tb⟩ := t
+  obtain ⟨hc, hb⟩ := h
+  simp only at hc hb
+  subst hc; subst hb
+  cases op with
+  | setChain c a uid r => exact ⟨⟨rfl, rfl⟩, fun _ => rfl⟩
+  | activate c scId uid =>
+    simp only [depStep]
+    cases hci : sc c with
+    | none => exact ⟨⟨rfl, rfl⟩, fun _ => rfl⟩
+    | some ci =>
+      by_cases hge : ci.activeId ≥ scId <;> simp [hge, DepSt.sameSigning]
+  | build c b =>
+    simp only [depStep, findBatch]
+    cases hci : sc c with
+    | none => exact ⟨⟨rfl, rfl⟩, fun _ => rfl⟩
+    | some ci =>
+      by_cases hf : (List.find? (batchKeyIs (hexToAddress b.token) b.nonce) sb).isSome = true
+      · simp [hf, DepSt.sameSigning]
+      · cases hd : goBatchCheckpoint H ci.uniqueId { b with estimate := 0 } <;> simp [hf, hd, DepSt.sameSigning]
+  | elect tok nonce est =>
+    simp only [depStep, findBatch]
+    cases hf : List.find? (batchKeyIs (hexToAddress tok) nonce) sb with
+    | none => exact ⟨⟨rfl, rfl⟩, fun _ => rfl⟩
+    | some x =>
+      by_cases he : x.b.estimate > 0
+      · simp [he, DepSt.sameSigning]
+      · cases hci : sc x.chain with
+        | none => simp [he, hci, DepSt.sameSigning]
+        | some ci =>
+          cases hd : goBatchCheckpoint H ci.uniqueId { x.b with estimate := est } <;> simp [he, hci, hd, DepSt.sameSigning]
+  | reimport => exact ⟨⟨rfl, rfl⟩, fun _ => rfl⟩
+  | getRec c => exact ⟨⟨rfl, rfl⟩, fun h => by simp [DepOp.readsRecord] at h⟩
+
+/-- **signing_independent_of_compass_record.**  Over ALL histories of activations (applied or ignored),
+builds, elections and genesis round trips, from any two states that differ in the skyway records
+only: every output — every `BytesToSign` issued or re-issued, every chain info — is the same.  In
+particular a late activation of an older compass or a genesis round trip (which only move the
+record) never change what validators are asked to sign. -/
+theorem signing_independent_of_compass_record (H : Hash) :
+    ∀ (ops : List DepOp) (s t : DepSt), s.sameSigning t → (∀ op ∈ ops, op.readsRecord = false) →
+      depTrace H s ops = depTrace H t ops ∧ (depRun H s ops).sameSigning (depRun H t ops)
+  | [], _, _, h, _ => ⟨rfl, h⟩
+  | op :: ops, s, t, h, hr => by
+    have h1 := depStep_sameSigning H s t op h
+    have h2 := signing_independent_of_compass_record H ops _ _ h1.1 (fun o ho => hr o (List.mem_cons_of_mem _ ho))
+    simp only [depTrace, depRun]
+    rw [h1.2 (hr op List.mem_cons_self), h2.1]
+    exact ⟨rfl, h2.2⟩
+
+/-- **queued_message_binds_active_deployment.**  The same for the turnstone messages the evm keeper queues
+itself (`UpdateValset` after a snapshot): the bytes are those of the message with the chain info's
+`SmartContractUniqueID` as deployment id, they do not depend on the skyway record, and — for an
+`UpdateValset`, whose scheme includes the id — two chain infos the contract can tell apart give
+different bytes (pointwise `NoColl` on the two hashed strings and the two inner checkpoints). -/
+theorem queued_message_binds_active_deployment (H : Hash) (s t : DepSt) (c : Nat) (m : GoMsg) :
+    (∀ ci, s.chains c = some ci → depMsgBytes H s c m = some (goSignBytes H { m with turnstoneId := ci.uniqueId })) ∧
+    (s.sameSigning t → depMsgBytes H s c m = depMsgBytes H t c m) ∧
+    (∀ ci ci' vs d d', s.chains c = some ci → t.chains c = some ci' → m.action = .updateValset vs →
+      goItemWf (.msg m []) = true →
+      bytes32OfString ci.uniqueId ≠ bytes32OfString ci'.uniqueId →
+      depMsgBytes H s c m = some (.hash d) → depMsgBytes H t c m = some (.hash d') →
+      (∀ p q, goItemPreimage H (.msg { m with turnstoneId := ci.uniqueId } []) = some p →
+        goItemPreimage H (.msg { m with turnstoneId := ci'.uniqueId } []) = some q → NoColl H p q) →
+      (∀ p q, goCheckpointPre (.msg { m with turnstoneId := ci.uniqueId } []) = some p →
+        goCheckpointPre (.msg { m with turnstoneId := ci'.uniqueId } []) = some q → NoColl H p q) →
+      d ≠ d') := by
+  refine ⟨fun ci hc => by simp [depMsgBytes, hc], fun h => by simp [depMsgBytes, h.1], ?_⟩
+  intro ci ci' vs d d' hc hc' hact hw hne hd hd' hout hin hdd
+  subst hdd
+  simp only [depMsgBytes, hc, hc', Option.some.injEq] at hd hd'
+  have ha := ((goSignBytes_eq_itemDigest H { m with turnstoneId := ci.uniqueId } []).1 d).1 hd
+  have hb := ((goSignBytes_eq_itemDigest H { m with turnstoneId := ci'.uniqueId } []).1 d).1 hd'
+  have hs : ∀ ts : Bytes, upSafe (.msg { m with turnstoneId := ts } []) = true := fun ts => by
+    simp [upSafe, hact]
+  have := (go_digest_binds H (.msg { m with turnstoneId := ci.uniqueId } []) (.msg { m with turnstoneId := ci'.uniqueId } [])
+    d hw hw (hs _) (hs _) ha hb hout hin).2.1
+  simp only [goItemBound, hact, Option.some.injEq, UV.mustBind, uvFields, List.cons.injEq, V.word.injEq] at this
+  exact hne this.2.2.2.1
+
+/-- **reimport_moves_only_the_record**, **ignored_activation_moves_only_the_record.**  The two ways
+the record and the chain info come apart: the genesis round trip and the activation of a compass
+that is not newer than the active one leave the chain infos and the batches alone. -/
+theorem reimport_moves_only_the_record (H : Hash) (s : DepSt) :
+    s.sameSigning (depStep H s .reimport).1 := ⟨rfl, rfl⟩
+
+theorem ignored_activation_moves_only_the_record (H : Hash) (s : DepSt) (c scId : Nat) (uid : Bytes)
+    (ci : ChainRec) (hc : s.chains c = some ci) (hold : scId ≤ ci.activeId) :
+    s.sameSigning (depStep H s (.activate c scId uid)).1 ∧
+    (depStep H s (.activate c scId uid)).1.compassRec c = uid ∧
+    (depStep H s (.activate c scId uid)).2 = .chain ci.activeId ci.uniqueId uid := by
+  have : ci.activeId ≥ scId := hold
+  simp [depStep, hc, this, DepSt.sameSigning, setAt]
+
+/-- **checkpoint_distinguishes_deployments.**  The same batch under two deployment ids the contract can
+tell apart (different `bytes32`) has different signing bytes — ASSUMPTION (keccak): no collision at
+exactly these two pre-images. -/
+theorem checkpoint_distinguishes_deployments (H : Hash) (ts ts' : Bytes) (b : GoBatch) (d d' : Nat)
+    (hw : goItemWf (.batch ts b) = true)
+    (h : goBatchCheckpoint H ts b = some d) (h' : goBatchCheckpoint H ts' b = some d')
+    (hne : bytes32OfString ts ≠ bytes32OfString ts')
+    (hnc : NoColl H (Batch.preimage (batchFields ts b)) (Batch.preimage (batchFields ts' b))) : d ≠ d' := by
+  intro hdd
+  subst hdd
+  have hv : batchValid b = true := by
+    cases hv : batchValid b with
+    | true => rfl
+    | false => rw [((goBatchCheckpoint_eq_itemDigest H ts b).2.1).2 hv] at h; simp at h
+  have ha : goItemDigest H (.batch ts b) = some d := (goBatchCheckpoint_eq_itemDigest H ts b).1 ▸ h
+  have hb : goItemDigest H (.batch ts' b) = some d := (goBatchCheckpoint_eq_itemDigest H ts' b).1 ▸ h'
+  have hw' : goItemWf (.batch ts' b) = true := hw
+  have := (go_digest_binds H (.batch ts b) (.batch ts' b) d hw hw' rfl rfl ha hb
+    (fun p q hp hq => by
+      simp only [goItemPreimage, hv, ↓reduceIte, Option.some.injEq] at hp hq
+      subst hp; subst hq; exact hnc)
+    (fun p q hp _ => by simp [goCheckpointPre] at hp)).2.1
+  simp only [goItemBound, hv, ↓reduceIte, Option.some.injEq, Batch.mustBind, batchFields, List.cons.injEq,
+    V.word.injEq] at this
+  exact hne this.2.2.2.2.1
+
+/-- **reissue_distinguishes_deployments.**  The clause itself, at the keeper: two states with the same
+stored batches whose chain infos give the batch's chain deployment ids the contract can tell apart —
+all else equal — re-issue DIFFERENT `BytesToSign` for the same batch and the same elected estimate
+(pointwise `NoColl` at the two pre-images that are hashed). -/
+theorem reissue_distinguishes_deployments (H : Hash) (s t : DepSt) (tok : Bytes) (nonce est d d' : Nat)
+    (hb : s.batches = t.batches)
+    (h : (depStep H s (.elect tok nonce est)).2 = .bytes d)
+    (h' : (depStep H t (.elect tok nonce est)).2 = .bytes d')
+    (hw : ∀ sb, findBatch s (hexToAddress tok) nonce = some sb → goItemWf (.batch [] { sb.b with estimate := est }) = true)
+    (hne : ∀ sb ci ci', findBatch s (hexToAddress tok) nonce = some sb → s.chains sb.chain = some ci →
+      t.chains sb.chain = some ci' → bytes32OfString ci.uniqueId ≠ bytes32OfString ci'.uniqueId)
+    (hnc : ∀ sb ci ci', findBatch s (hexToAddress tok) nonce = some sb → s.chains sb.chain = some ci →
+      t.chains sb.chain = some ci' →
+      NoColl H (Batch.preimage (batchFields ci.uniqueId { sb.b with estimate := est }))
+        (Batch.preimage (batchFields ci'.uniqueId { sb.b with estimate := est }))) : d ≠ d' := by
+  obtain ⟨sb, ci, hf, -, hc, hd, -⟩ := reissue_binds_active_deployment H s tok nonce est d h
+  obtain ⟨sb', ci', hf', -, hc', hd', -⟩ := reissue_binds_active_deployment H t tok nonce est d' h'
+  have : sb' = sb := by
+    have : findBatch t (hexToAddress tok) nonce = some sb := by simpa [findBatch, ← hb] using hf
+    exact Option.some.inj (hf'.symm.trans this)
+  subst this
+  exact checkpoint_distinguishes_deployments H ci.uniqueId ci'.uniqueId _ d d' (hw _ hf) hd hd'
+    (hne _ _ _ hf hc hc') (hnc _ _ _ hf hc hc')
+
 /-! ## non-vacuity -/
 
 /-- "compass" zero-padded to 32 bytes -/
@@ -2702,5 +2945,38 @@ example : goItemWf exUVUnelected = true ∧ goItemWf exUVDefault = true ∧ upSa
     exUVUnelected.kind = .uv ∧ itemElected exUVUnelected = false ∧ itemElected exUVDefault = true ∧
     goItemPreimage exH exUVUnelected = goItemPreimage exH exUVDefault ∧
     (goItemPreimage exH exUVUnelected).isSome = true := by decide
+
+/-! ### deployment ids: the late activation of an older compass, and the genesis round trip
+
+Chain 1 runs compass #2 with deployment id "B"; the activation of compass #1 ("A") arrives late and is
+ignored by the evm module, but the skyway record now says "A".  A batch is built, the skyway module
+goes through a genesis round trip (record gone), the estimate 21000 is elected. -/
+def exDepBatch : GoBatch :=
+  ⟨List.replicate 40 48, [List.replicate 40 49], [List.replicate 40 48], [5], 9, 77, [0x55], 0⟩
+def exDepOps : List DepOp :=
+  [.setChain 1 2 [66] [66], .activate 1 1 [65], .getRec 1, .build 1 exDepBatch, .reimport, .getRec 1,
+   .elect (List.replicate 40 48) 9 21000, .elect (List.replicate 40 48) 9 5, .elect (List.replicate 40 48) 8 5,
+   .activate 2 1 [65]]
+example : depTrace exH {} exDepOps =
+    [.ok, .chain 2 [66] [65], .record [65],
+     .bytes ((goBatchCheckpoint exH [66] exDepBatch).getD 0), .ok, .record [],
+     .bytes ((goBatchCheckpoint exH [66] { exDepBatch with estimate := 21000 }).getD 0),
+     .already, .notFound, .noChain] ∧
+    (goBatchCheckpoint exH [66] exDepBatch).isSome = true ∧
+    ((depRun exH {} exDepOps).chains 1).map (·.uniqueId) = some [66] ∧
+    goItemWf (.batch [] { exDepBatch with estimate := 21000 }) = true ∧
+    bytes32OfString [65] ≠ bytes32OfString [66] := by decide
+-- the upgrade between build and election IS picked up: the re-issued bytes are those under "C"
+example : depTrace exH {} [.setChain 1 2 [66] [66], .build 1 exDepBatch, .activate 1 3 [67],
+      .elect (List.replicate 40 48) 9 21000] =
+    [.ok, .bytes ((goBatchCheckpoint exH [66] exDepBatch).getD 0), .chain 3 [67] [67],
+     .bytes ((goBatchCheckpoint exH [67] { exDepBatch with estimate := 21000 }).getD 0)] := by decide
+
+-- an `UpdateValset` message queued by the keeper after that history signs deployment id "B" (the chain
+-- info), not "A" (the last id the skyway record saw) — whatever id the caller's message carried
+def exDepUV : GoMsg := ⟨[65], [49], 7, 0, .updateValset ⟨[[50]], [5], 3⟩⟩
+example : depMsgBytes exH (depRun exH {} exDepOps) 1 exDepUV = some (goSignBytes exH { exDepUV with turnstoneId := [66] }) ∧
+    depMsgBytes exH (depRun exH {} exDepOps) 3 exDepUV = none ∧
+    goItemWf (.msg exDepUV []) = true := by decide
 
 end Paloma.SignBytes
